@@ -29,24 +29,94 @@ thread_local! {
     static DEALLOCS: Cell<u64> = const { Cell::new(0) };
 }
 
+/// Blocks whose layout asks for 8-byte alignment (`Vec<f64>`, `Vec<usize>` ...) are handed out at
+/// addresses that are 8 modulo 16: conforming, and the least aligned a block of that layout can
+/// be. (The system allocator returns 16-byte aligned blocks whatever the layout says, which
+/// hides code that relies on more alignment than its types guarantee - an aligned SIMD load
+/// from a `Vec<f64>`, say.) Blocks with 4-byte alignment (`Vec<f32>`) are placed at 4 modulo 16.
+/// (No run-time switch: blocks allocated before `main` must be freed with the same rule.)
+
+#[inline]
+fn shift_for(layout: &Layout) -> usize {
+    // decided by the layout alone, so that alloc / realloc / dealloc agree without a header
+    if layout.size() >= 16 && (layout.align() == 8 || layout.align() == 4) {
+        layout.align()
+    } else {
+        0
+    }
+}
+
+#[inline]
+unsafe fn outer(layout: &Layout, shift: usize) -> Layout {
+    Layout::from_size_align_unchecked(layout.size() + shift, 16)
+}
+
 unsafe impl GlobalAlloc for Counting {
     unsafe fn alloc(&self, layout: Layout) -> *mut u8 {
         let _ = ALLOCS.try_with(|c| c.set(c.get() + 1));
-        let p = System.alloc(layout);
+        let shift = shift_for(&layout);
+        let p = if shift == 0 { System.alloc(layout) } else { System.alloc(outer(&layout, shift)) };
+        if p.is_null() {
+            return p;
+        }
+        let p = p.add(shift);
         fill(p, layout.size());
         p
     }
     unsafe fn dealloc(&self, ptr: *mut u8, layout: Layout) {
         let _ = DEALLOCS.try_with(|c| c.set(c.get() + 1));
-        System.dealloc(ptr, layout)
+        let shift = shift_for(&layout);
+        if shift == 0 {
+            System.dealloc(ptr, layout)
+        } else {
+            System.dealloc(ptr.sub(shift), outer(&layout, shift))
+        }
     }
     unsafe fn alloc_zeroed(&self, layout: Layout) -> *mut u8 {
         let _ = ALLOCS.try_with(|c| c.set(c.get() + 1));
-        System.alloc_zeroed(layout)
+        let shift = shift_for(&layout);
+        if shift == 0 {
+            System.alloc_zeroed(layout)
+        } else {
+            let p = System.alloc_zeroed(outer(&layout, shift));
+            if p.is_null() {
+                p
+            } else {
+                p.add(shift)
+            }
+        }
     }
     unsafe fn realloc(&self, ptr: *mut u8, layout: Layout, new_size: usize) -> *mut u8 {
         let _ = REALLOCS.try_with(|c| c.set(c.get() + 1));
-        let p = System.realloc(ptr, layout, new_size);
+        let shift = shift_for(&layout);
+        let new_layout = Layout::from_size_align_unchecked(new_size, layout.align());
+        let new_shift = shift_for(&new_layout);
+        let p = if shift == 0 && new_shift == 0 {
+            System.realloc(ptr, layout, new_size)
+        } else if shift == new_shift {
+            // the shift is smaller than the 16-byte alignment of the outer block, so the data
+            // keeps its offset when the outer block moves
+            let q = System.realloc(ptr.sub(shift), outer(&layout, shift), new_size + shift);
+            if q.is_null() {
+                q
+            } else {
+                q.add(shift)
+            }
+        } else {
+            // crossing the 16-byte size limit: move by hand
+            let q = if new_shift == 0 { System.alloc(new_layout) } else { System.alloc(outer(&new_layout, new_shift)) };
+            if q.is_null() {
+                return q;
+            }
+            let q = q.add(new_shift);
+            std::ptr::copy_nonoverlapping(ptr, q, layout.size().min(new_size));
+            if shift == 0 {
+                System.dealloc(ptr, layout)
+            } else {
+                System.dealloc(ptr.sub(shift), outer(&layout, shift))
+            }
+            q
+        };
         if new_size > layout.size() && !p.is_null() {
             fill(p.add(layout.size()), new_size - layout.size());
         }
